@@ -87,6 +87,7 @@ def install(tracer):
     from rebench import persistence as P
     real_ntf = P.NamedTemporaryFile
     real_open = open
+    _real_move = shutil.move
 
     def ntf(*a, **kw):
         tracer.mutating(['mktemp', None])
@@ -113,7 +114,7 @@ def install(tracer):
     def move(src, dst, *a, **kw):
         same = os.stat(src).st_dev == os.stat(os.path.dirname(os.path.abspath(dst))).st_dev
         tracer.mutating(['move', tracer.cls(src), tracer.cls(dst), 'same_fs' if same else 'other_fs'])
-        return shutil.move(src, dst, *a, **kw)
+        return _real_move(src, dst, *a, **kw)
 
     def traced_open(path, mode='r', *a, **kw):
         c = tracer.cls(path) if isinstance(path, str) else 'other'
@@ -130,10 +131,72 @@ def install(tracer):
                         tracer.snapshots[p] = None
         return real_open(path, mode, *a, **kw)
 
+    # ---- copying a file over another one (shutil.copyfile / copy / copy2 / copyfileobj): the
+    # destination is opened for writing (truncated), filled chunk by chunk, closed.  Each step is a
+    # mutating call with a kill point; the chunks are written unbuffered, like sendfile does.
+    CHUNK = 4096
+    real_copymode, real_copystat = shutil.copymode, shutil.copystat
+
+    def copyfile(src, dst, *a, **kw):
+        cs, cd = tracer.cls(src), tracer.cls(dst)
+        if not (cd.startswith('data') or cd == 'tmp' or cs.startswith('data') or cs == 'tmp'):
+            return real_copyfile(src, dst, *a, **kw)
+        with real_open(src, 'rb') as fsrc:
+            tracer.mutating(['copy-open', cs, cd])
+            fdst = real_open(dst, 'wb', buffering=0)
+            try:
+                while True:
+                    buf = fsrc.read(CHUNK)
+                    if not buf:
+                        break
+                    tracer.mutating(['copy-chunk', len(buf)])
+                    fdst.write(buf)
+                tracer.mutating(['copy-close', cd])
+            finally:
+                fdst.close()
+        return dst
+
+    def copy(src, dst, *a, **kw):
+        if os.path.isdir(dst):
+            dst = os.path.join(dst, os.path.basename(src))
+        copyfile(src, dst)
+        real_copymode(src, dst)
+        return dst
+
+    def copy2(src, dst, *a, **kw):
+        if os.path.isdir(dst):
+            dst = os.path.join(dst, os.path.basename(src))
+        copyfile(src, dst)
+        real_copystat(src, dst)
+        return dst
+
+    def copyfileobj(fsrc, fdst, length=0):
+        name = getattr(fdst, 'name', None)
+        cd = tracer.cls(name) if isinstance(name, str) else 'other'
+        if not (cd.startswith('data') or cd == 'tmp'):
+            return real_copyfileobj(fsrc, fdst, length) if length else real_copyfileobj(fsrc, fdst)
+        while True:
+            buf = fsrc.read(CHUNK)
+            if not buf:
+                break
+            tracer.mutating(['copy-chunk', len(buf)])
+            fdst.write(buf)
+
+    real_copyfile, real_copyfileobj = shutil.copyfile, shutil.copyfileobj
+    over = {'move': move, 'copyfile': copyfile, 'copy': copy, 'copy2': copy2, 'copyfileobj': copyfileobj}
     P.NamedTemporaryFile = ntf
     P.os = _ModProxy(os, {'unlink': unlink, 'replace': replace, 'rename': rename, 'remove': unlink})
-    P.shutil = _ModProxy(shutil, {'move': move})
+    P.shutil = _ModProxy(shutil, over)
     P.open = traced_open
+    # this is a forked child that runs one session: the functions of the shutil module itself are
+    # replaced as well, so that `from shutil import copyfile`, an alias, or a helper module is traced too
+    real_move = shutil.move
+    for k, f in over.items():
+        if k != 'move':
+            setattr(shutil, k, f)
+    for k in ('copyfile', 'copy', 'copy2', 'copyfileobj', 'move'):
+        if k in P.__dict__:
+            setattr(P, k, over[k])
 
 
 def run_traced(fn, data_paths, tmpdir, crash_at=None):
